@@ -959,7 +959,8 @@ pub fn c18(base_seed: u64, i: u64, g: &GenCtx) -> Plan {
         let ops = solo_program(&mut r, &mut data, &mut slot, g);
         tasks.push(TaskPlan { level: level(&mut r, g.avail), ops });
     }
-    let mut p = multi("C18", "c18", seed, Cfg { pool_width: 1, ..Cfg::default() }, data, tasks, &mut r);
+    let fresh = r.chance(1, 2);
+    let mut p = multi("C18", "c18", seed, Cfg { pool_width: 1, fresh_threads: fresh, ..Cfg::default() }, data, tasks, &mut r);
     p.schedule = schedule(&mut r);
     p
 }
